@@ -80,6 +80,46 @@ def clang_dump(src, incs, defs, filt):
     return load_many(text)
 
 
+def clang_dump_namespaces(src, incs, defs, keep):
+    """Unfiltered dump reduced to the top-level namespaces in `keep` (for translation units whose namespace name is a
+    substring of std names, where -ast-dump-filter cannot be used).  Source locations are resolved over the whole dump
+    before the reduction, and the reduced, annotated dump is cached."""
+    cmd = ['clang++', '-std=c++17', '-fsyntax-only', '-Wno-everything', '-Xclang', '-ast-dump=json']
+    for i in incs:
+        cmd += ['-I', i]
+    for d in defs:
+        cmd += ['-D' + d]
+    cmd.append(src)
+    pp = subprocess.run(['clang++', '-std=c++17', '-E', '-P'] + cmd[5:], stdout=subprocess.PIPE, stderr=subprocess.PIPE)
+    if pp.returncode != 0:
+        brk('clang preprocessing failed for %s: %s' % (src, pp.stderr.decode()[:2000]))
+    key = hashlib.sha256(pp.stdout + ' '.join(cmd).encode() + ('|'.join(keep)).encode()).hexdigest()[:24]
+    os.makedirs(CACHE_DIR, exist_ok=True)
+    cpath = os.path.join(CACHE_DIR, key + '.ns.json')
+    if os.path.exists(cpath):
+        with open(cpath) as f:
+            return json.load(f)
+    r = subprocess.run(cmd, stdout=subprocess.PIPE, stderr=subprocess.PIPE)
+    if r.returncode != 0:
+        brk('clang failed on %s: %s' % (src, r.stderr.decode()[:2000]))
+    root = json.loads(r.stdout)
+    del r
+    loc = TU.__new__(TU)
+    loc._file = None
+    loc._line = None
+    out = []
+    for n in root.get('inner', []):
+        loc._locs(n)
+        if n.get('kind') == 'NamespaceDecl' and n.get('name') in keep:
+            out.append(n)
+    del root
+    tmp = cpath + '.%d.tmp' % os.getpid()
+    with open(tmp, 'w') as f:
+        json.dump(out, f)
+    os.replace(tmp, cpath)
+    return out
+
+
 OPNAMES = {
     '+': 'add', '-': 'sub', '*': 'mul', '/': 'div', '%': 'mod', '==': 'eq', '!=': 'ne', '<': 'lt', '<=': 'le',
     '>': 'gt', '>=': 'ge', '+=': 'addeq', '-=': 'subeq', '*=': 'muleq', '/=': 'diveq', '!': 'not', '=': 'assign',
@@ -95,7 +135,7 @@ RECORD_KINDS = ('CXXRecordDecl', 'ClassTemplateSpecializationDecl')
 class TU:
     """One translation unit's dump, indexed."""
 
-    def __init__(self, path, objs):
+    def __init__(self, path, objs, located=False):
         self.path = path
         self.by_id = {}
         self.qual = {}       # decl id -> qualified C++ name
@@ -109,10 +149,14 @@ class TU:
         self._line = None
         seen = set()
         for o in objs:
-            if o.get('id') in seen:
+            if o.get('id') in seen or o.get('id') in self.by_id:
+                # already indexed (a later dump filter matched a declaration nested in an earlier match)
+                if not located:
+                    self._locs(o)
                 continue
             seen.add(o.get('id'))
-            self._locs(o)
+            if not located:
+                self._locs(o)
             self._index(o, [], False)
         # second pass: qualified names that depend on parentDeclContextId
         for f in self.funcs + self.globals:
@@ -284,11 +328,15 @@ class Project:
         src = rel if os.path.isabs(rel) else os.path.join(self.repo, rel)
         if not os.path.exists(src):
             brk('translation unit %s does not exist' % rel)
-        filts = self.filt if isinstance(self.filt, (list, tuple)) else [self.filt]
-        objs = []
-        for f in filts:
-            objs += clang_dump(src, self.incs, self.defs, f)
-        tu = TU(rel, objs)
+        if isinstance(self.filt, dict):
+            objs = clang_dump_namespaces(src, self.incs, self.defs, self.filt['namespaces'])
+            tu = TU(rel, objs, located=True)
+        else:
+            filts = self.filt if isinstance(self.filt, (list, tuple)) else [self.filt]
+            objs = []
+            for f in filts:
+                objs += clang_dump(src, self.incs, self.defs, f)
+            tu = TU(rel, objs)
         self.tus.append(tu)
         for f in tu.funcs:
             m = f.get('mangledName')
@@ -370,6 +418,7 @@ class Emitter:
         self.typeorder = []             # ('record', q) | ('inst', cname) in dependency order
         self.typeorder_seen = set()
         self.string_tokens = {}
+        self.forward_records = set()
 
     # ---------------------------------------------------------------- types
     def resolve_name(self, name, scope=()):
@@ -470,10 +519,10 @@ class Emitter:
         if ty.name in BUILTIN_ABBR:
             return BUILTIN_ABBR[ty.name]
         base = ty.name.split('::')[-1]
-        if ty.name.startswith('std::') or ty.args:
-            m = self.models.lookup(self, ty)
-            if m:
-                return m.cname
+        if ty.name.startswith('std::') or ty.name.startswith('__gnu_cxx::') or ty.args:
+            nm = self.models.name_of(self, ty)     # naming only: never instantiates a model
+            if nm:
+                return nm
         return re.sub(r'\W', '_', base) + ''.join('_' + self.abbr(a) for a in ty.args)
 
     def ctype(self, ty):
@@ -482,6 +531,10 @@ class Emitter:
             inner = ty.inner
             if inner.kind == 'func':
                 return 'void *'
+            if inner.kind == 'name' and inner.name in self.p.record and not inner.args:
+                # a pointer/reference needs only a forward declaration; the definition is pulled in by member accesses
+                self.forward_records.add(inner.name)
+                return 'struct ' + self.rec_cname(inner.name) + ' *'
             return self.ctype(inner) + ' *'
         if ty.kind == 'array':
             brk('array type not supported here: %r' % ty)
@@ -705,7 +758,7 @@ class Emitter:
             c = contracts.get(fo['meta']['cname'])
             bodies.append('/* %s  [%s:%s-%s] */\n%s%s\n%s' % (fo['meta']['qualified'], fo['meta']['file'], fo['meta']['begin'], fo['meta']['end'],
                                                           fo['proto'], ('\n' + c) if c else '', fo['body']))
-        types = '\n'.join(t for (_, _, t) in self.typeorder)
+        types = '\n'.join('struct %s;' % self.rec_cname(q) for q in sorted(self.forward_records)) + '\n' + '\n'.join(t for (_, _, t) in self.typeorder)
         gl = gdecls
         return {
             'types': types,
@@ -902,6 +955,8 @@ class FuncEmitter:
         return self.em.opts.get('exceptions', False)
 
     def ret_dummy(self):
+        if getattr(self, 'try_stack', None):
+            return 'goto %s;' % self.try_stack[-1]
         if 'noexcept' in self.f['type']['qualType'] and 'noexcept(false)' not in self.f['type']['qualType']:
             return '{ __CPROVER_assert(0, "noexcept: an exception escapes %s (std::terminate)"); __CPROVER_assume(0); %s }' % (self.f.get('name'), self.ret_dummy0())
         return self.ret_dummy0()
@@ -967,9 +1022,27 @@ class FuncEmitter:
         while cond.get('kind') in ('ParenExpr',) or (cond.get('kind') == 'CXXStaticCastExpr'):
             cond = cond['inner'][0]
         self._stmt_may_throw = False
+        loc_key = '%s:%s' % (os.path.basename(self.tu.path), n.get('_begin', (None, None))[1])
+        if loc_key in self.em.opts.get('skip_asserts', ()):
+            # the assertion states a property of callees that this job abstracts: it is not decided here (listed in the evidence)
+            self.em.dropped.add('assert at %s (property of abstracted callees; not decided by this job)' % loc_key)
+            return ';'
+        if self.contains_kind(cond, 'LambdaExpr'):
+            # debug-only consistency assertions written with std::all_of/any_of lambdas are not rendered
+            self.em.dropped.add('assert() conditions that contain lambda algorithms (%s:%s)' % (os.path.basename(self.tu.path), n.get('_begin', (None, None))[1]))
+            return ';'
         ce = self.expr(cond)
         line = n.get('_begin', (None, None))[1]
         return '__CPROVER_assert(%s, "assert %s:%s in %s");' % (ce, os.path.basename(self.tu.path), line, self.f.get('name'))
+
+    def contains_kind(self, n, kind):
+        stack = [n]
+        while stack:
+            x = stack.pop()
+            if x.get('kind') == kind:
+                return True
+            stack.extend(x.get('inner', []))
+        return False
 
     def s_CompoundStmt(self, n):
         return [self.block(n)]
@@ -1163,6 +1236,37 @@ class FuncEmitter:
         temps = self.blocks.pop()
         return ['{\n' + ''.join('  ' + t + '\n' for t in temps) + ''.join(indent(x) for x in pre) +
                 indent('for (; %s; %s)%s%s' % (c, i, head, b)) + '}']
+
+    def s_CXXTryStmt(self, n):
+        # try { body } catch (const T &) { handler }  with the exception flag: a raising call inside the body jumps to the
+        # handler label; a handler runs when the flag names its type (or for catch (...)), otherwise the exception propagates
+        if not self.exc_check():
+            brk('%s: try/catch met but exceptions are not enabled for this extraction' % self.f.get('name'))
+        inner = n['inner']
+        body, catches = inner[0], inner[1:]
+        self.em.tmp_counter += 1
+        k = self.em.tmp_counter
+        lbl, end = 'xt_catch%d' % k, 'xt_tryend%d' % k
+        if not hasattr(self, 'try_stack'):
+            self.try_stack = []
+        self.try_stack.append(lbl)
+        b = self.block(body)
+        self.try_stack.pop()
+        out = [b, 'goto %s;' % end, '%s: ;' % lbl]
+        for c in catches:
+            ci = c.get('inner', [])
+            var = ci[0] if ci and ci[0].get('kind') == 'VarDecl' else None
+            hbody = ci[-1]
+            if var is not None:
+                t = self.ty(var).strip_ref()
+                exc = 'EXC_' + re.sub(r'\W+', '_', (t.name or 'UNKNOWN').split('::')[-1])
+                cond = '__exc == %s' % exc
+            else:
+                cond = '__exc != 0'
+            out.append('if (%s) { __exc = 0; %s goto %s; }' % (cond, self.block(hbody), end))
+        out.append('if (__exc) %s' % self.ret_dummy())
+        out.append('%s: ;' % end)
+        return out
 
     def s_BreakStmt(self, n):
         return ['break;']
@@ -1429,6 +1533,8 @@ class FuncEmitter:
             e = '%s->%s' % (b, name) if n.get('isArrow') else '%s.%s' % (paren_lv(b), name)
             return e
         if md.get('kind') == 'FieldDecl':
+            if md.get('_record') in self.em.p.record:
+                self.em.need_record(md['_record'])
             ft = self.em.ty_of(md['type'], self.scope)
             if n.get('isArrow'):
                 e = '%s->%s' % (b, name)
